@@ -146,7 +146,9 @@ def schedule_block(chk):
     base = []
     for k in range(n):
         cfg = FR.gen_config(rng, escape=False, kicks=False, cls="EvolvedMF", ntout=3)
-        ages = sorted([float(rng.choice([30.0, 100.0, 400.0])), float(rng.choice([1500.0, 3000.0, 6000.0])), float(rng.choice([9000.0, 12000.0, 13500.0]))])
+        ages = sorted([float(rng.choice([1.5, 30.0, 100.0, 400.0])), float(rng.choice([1500.0, 3000.0, 6000.0])), float(rng.choice([9000.0, 12000.0, 13500.0]))])
+        if k % 3 == 0:
+            cfg["BH_ret_int"] = 0.0      # no BH is ever retained: the only admissible BH target is exactly the fraction formed, 0
         cfg["tout"] = ages[::-1] if k % 2 == 0 else [ages[1], ages[2], ages[0]]      # the last requested age is never the oldest one
         cfg["BH_ret_dyn"] = 1.0
         cfg.pop("imf_ext", None)
@@ -227,6 +229,8 @@ def run(chk):
 
 def replay(chk, payload):
     f = payload["failure"]
+    if f.get("schedule_block") or (isinstance(f.get("observed"), dict) and "last_requested_age" in f["observed"]):
+        return run(chk)          # comparisons between several constructions: the whole run is re-created (same seed and tier)
     out = FR.run_config(f["input"])
     inspect(chk, out)
     print({k: v for k, v in out.items() if k in ("error", "msg", "site", "converged")})
